@@ -78,7 +78,7 @@ def Spec.hasDefect (ws : Bytes) (ns : List Node) : Kind → Prop
   | .selfLoop => ∃ n ∈ ns, n.label ∈ n.deps
   | .cycle => ¬ NoCycle ns
   | .conflict => Conflict ns
-  | .inputEscape => ∃ t, Node.target t ∈ ns ∧ ∃ i ∈ t.inputs, InputEscapes i
+  | .inputEscape => ∃ t, Node.target t ∈ ns ∧ ∃ i ∈ t.checkedInputs, InputEscapes i
   | .outputEscape => ∃ t, Node.target t ∈ ns ∧ ∃ o ∈ t.outs, OutputEscapes ws t o
   | .testDep => BadTestDep ns
   | .testNoCommand => ∃ t, Node.target t ∈ ns ∧ t.isTest = true ∧ t.hasCmd = false
@@ -108,9 +108,10 @@ theorem edgeErrors_some {ns : List Node} {k : Kind} (h : edgeErrors ns = some k)
   · exact .inl ⟨rfl, fun hdef => hnd (hdef n.label d ⟨n, hn, rfl, hd⟩)⟩
   · exact .inr ⟨rfl, n, hn, hs⟩
 
-theorem mem_inputErrors {t : Target} {k : Kind} (h : k ∈ inputErrors t) :
-    k = .inputEscape ∧ ∃ i ∈ t.inputs, InputEscapes i := by
+theorem mem_inputErrors {t : Target} {k : Kind} (h : k ∈ inputErrors Cfg.current t) :
+    k = .inputEscape ∧ ∃ i ∈ t.checkedInputs, InputEscapes i := by
   unfold inputErrors at h
+  simp only [Cfg.current, if_true] at h
   obtain ⟨i, hi, hk⟩ := List.mem_filterMap.mp h
   by_cases ha : isAbs i = true
   · simp only [ha, if_true, Option.some.injEq] at hk
